@@ -17,6 +17,8 @@ fn worlds(thorough: bool) -> Vec<Built> {
     v.push(stdworlds::build_with_roots(&stdworlds::chain_spec("c01-chain-fdd", [Enc::Fixed, Enc::Dynamic, Enc::Dynamic], 60000, 2500), &stdworlds::chain_roots()));
     v.push(stdworlds::build_with_roots(&stdworlds::chain_spec("c01-dust-dfd", [Enc::Dynamic, Enc::Fixed, Enc::Dynamic], 3000, 2500), &stdworlds::dust_roots()));
     if thorough {
+        v.push(stdworlds::build_with_roots(&stdworlds::chain_spec_at("c01-chain-low", [Enc::Dynamic, Enc::Dynamic, Enc::Fixed], 3000, 300, -112640), &stdworlds::chain_roots()));
+        v.push(stdworlds::build_with_roots(&stdworlds::chain_spec_at("c01-chain-high", [Enc::Fixed, Enc::Dynamic, Enc::Dynamic], 100, 2500, 225280), &stdworlds::chain_roots()));
         v.push(stdworlds::build_with_roots(&stdworlds::std_spec("c01-std-fdd", [Enc::Fixed, Enc::Dynamic, Enc::Dynamic], 60000, 2500), &stdworlds::std_roots()[1..4]));
     }
     if thorough {
@@ -35,6 +37,10 @@ fn worlds(thorough: bool) -> Vec<Built> {
 }
 
 fn alphabet(b: &Built) -> Vec<Op> {
+    stdworlds::shift_repos(alphabet0(b), stdworlds::origin_of(&b.w))
+}
+
+fn alphabet0(b: &Built) -> Vec<Op> {
     let n = b.w.positions.len() as u8;
     if b.name.contains("dust") {
         stdworlds::dust_alphabet(n)
